@@ -7,18 +7,23 @@
        output K cs = output K cs'
    shown as  output K cs = F_K (concat cs)  for the pure functions F_K of Model/Chunk.v
    (a_strip_bom, a_read_lines, a_replace1, a_decode).
-   Proved below: the source itself, StripBOM, bufio.Reader fill/ReadRune/ReadSlice/ReadLine,
-   ios.ByteReadLine, the line loop, and their composition (the stack of both fixed-length formats)
-   -- for every buffer size >= 4, every chunking, every tail (EOF or faults), EOF/fault delivered
-   with or after the last bytes.  The line-reader theorems carry the guard that the pure function
-   is defined (a_read_lines ... = Ok _), which excludes exactly the inputs of known finding F22
-   (lines_chunk_refuted).  NOT proved here (model + correspondence only): BytesReplacingReader,
-   the delimiter scanner, the charmap decoder (brr_read, scan, dec_read of Model/Chunk.v are
-   compared with the real code on every run); encoding/csv|json|xml are assumed chunk-invariant. *)
+   Proved below: the source itself, StripBOM, bufio.Reader fill/ReadRune/ReadSlice/ReadLine/Read,
+   ios.ByteReadLine, the line loop, BytesReplacingReader for a one-byte search token and a
+   replacement of length <= 1 (the three instances omniparser constructs), and the compositions
+   StripBOM -> line reader (both fixed-length formats) and StripBOM -> Read -> CR removal -> LF
+   removal (the bytes the EDI scanner sees) -- for every buffer size >= 4, every chunking, every
+   tail (EOF or faults), EOF/fault delivered with or after the last bytes.  Every layer theorem is
+   proved over ANY reader meeting the contract reader_ok, so the layers compose freely.  The
+   line-reader theorems carry the guard that the pure function is defined (a_read_lines ... = Ok _),
+   which excludes exactly the inputs of known finding F22 (lines_chunk_refuted).
+   NOT proved (model + correspondence on every run only; hence ..._partial below): the delimiter
+   scanner with its doubling buffer (scan / scan_all), the charmap decoder (dec_read), and
+   BytesReplacingReader for longer tokens; encoding/csv|json|xml are assumed chunk-invariant. *)
 From Coq Require Import List NArith Bool Arith.
 From Coq.Strings Require Import Byte.
 Import ListNotations.
-From OV Require Import Base.Bytes Model.Chunk Proofs.Chunk Proofs.ChunkLines Proofs.ChunkBom Proofs.ChunkTop.
+From OV Require Import Base.Bytes Model.Chunk Proofs.Chunk Proofs.ChunkLines Proofs.ChunkBom Proofs.ChunkTop
+  Proofs.ChunkBRR Proofs.ChunkBufRead Proofs.ChunkStack.
 
 (* A consumer that reads a source to the end with reads of any fixed positive size sees the same
    bytes and the same final error under every chunking of the same bytes. *)
@@ -70,6 +75,66 @@ Theorem stack_lines_chunk_invariant : forall N gas gas' fuel cs cs' wl wl' t res
   bom_lines N gas fuel (mkSrc cs wl t) = Ok res /\
   bom_lines N gas' fuel (mkSrc cs' wl' t) = Ok res.
 Proof. exact stack_lines_chunk_invariant. Qed.
+
+(* bufio.Reader.Read over any reader meeting the contract meets the contract (same stream). *)
+Theorem bufio_read_reader_ok : forall St sread Rep wt lead,
+  reader_ok St sread Rep wt lead -> forall N, 4 <= N ->
+  reader_ok (bufrd * St) (b_read St sread N) (bufrd_rep St Rep N) (bufrd_wt St wt) (bufrd_lead St lead).
+Proof. exact bufio_read_reader_ok. Qed.
+
+(* BytesReplacingReader (one-byte search, replacement of length <= 1) over any reader meeting the
+   contract meets the contract, for the stream of replaced bytes. *)
+Theorem brr_reader_ok : forall s repl, length repl <= 1 -> forall bufsize, 0 < bufsize ->
+  forall St sread Rep wt lead, reader_ok St sread Rep wt lead -> forall fuel,
+  reader_ok (brr * St) (brr_rd s repl bufsize St sread fuel)
+            (brr_rep_f s repl bufsize St Rep wt fuel) (brr_wt St wt) (fun _ => 0).
+Proof. exact brr_reader_ok. Qed.
+
+Theorem brr_chunk_invariant : forall s repl cap fuel fuel' F F' cs cs' wl wl' t,
+  length repl <= 1 -> 0 < cap -> concat cs = concat cs' ->
+  runs_ok cs = true -> runs_ok cs' = true ->
+  weight cs + 1 < fuel -> weight cs' + 1 < fuel' -> 2 * weight cs < F -> 2 * weight cs' < F' ->
+  drain_rd _ (brr_rd s repl 4096 source io_read fuel) F cap (brr_init, mkSrc cs wl t) =
+  drain_rd _ (brr_rd s repl 4096 source io_read fuel') F' cap (brr_init, mkSrc cs' wl' t).
+Proof. exact brr_chunk_invariant. Qed.
+
+(* Composition for the EDI byte stack: what StripBOM -> Read -> CR removal -> LF removal hands
+   to its consumer is a_replace1 LF (a_replace1 CR (a_strip_bom bytes)), under every chunking.
+   Partial w.r.t. the full stack statement: the scanner above it and the charmap decoder below it
+   are modelled and compared with the real code but not proved. *)
+Theorem stack_chunk_invariant_partial : forall N fuel F cap cs cs' wl wl' t data' t',
+  4 <= N -> 0 < cap -> concat cs = concat cs' -> runs_ok cs = true -> runs_ok cs' = true ->
+  12 * (N + weight cs) + 4 < fuel -> 12 * (N + weight cs) + 4 < F ->
+  12 * (N + weight cs') + 4 < fuel -> 12 * (N + weight cs') + 4 < F ->
+  a_strip_bom (concat cs, t) = inr (data', t') ->
+  exists b1 s1 b2 s2,
+    strip_bom source io_read N (mkSrc cs wl t) = Ok (inr b1, s1) /\
+    strip_bom source io_read N (mkSrc cs' wl' t) = Ok (inr b2, s2) /\
+    drain_rd _ (edi_bytes_rd N fuel) F cap (brr_init, (brr_init, (b1, s1))) =
+    drain_rd _ (edi_bytes_rd N fuel) F cap (brr_init, (brr_init, (b2, s2))).
+Proof. exact stack_replacing_chunk_invariant. Qed.
+
+Theorem stack_replacing_spec : forall N fuel F cap cs wl t data' t',
+  4 <= N -> 0 < cap -> runs_ok cs = true ->
+  12 * (N + weight cs) + 4 < fuel -> 12 * (N + weight cs) + 4 < F ->
+  a_strip_bom (concat cs, t) = inr (data', t') ->
+  exists b s', strip_bom source io_read N (mkSrc cs wl t) = Ok (inr b, s') /\
+    drain_rd _ (edi_bytes_rd N fuel) F cap (brr_init, (brr_init, (b, s')))
+    = Ok (a_replace1 NL [] (a_replace1 CR [] data'), tail_err t').
+Proof. exact stack_replacing_spec. Qed.
+
+(* Non-vacuity of the byte-stack theorems: BOM, CR LF pairs, cut inside each of them. *)
+Example c09_stack_nonvacuous :
+  let data := [xef; xbb; xbf; x41; x2a; x0d; x0a; x42; x7e; x0d; x0a] in
+  let cs := [[xef; xbb]; []; [xbf; x41; x2a; x0d]; [x0a; x42; x7e; x0d]; [x0a]] in
+  concat cs = data /\ runs_ok cs = true /\
+  a_strip_bom (data, TEof) = inr ([x41; x2a; x0d; x0a; x42; x7e; x0d; x0a], TEof) /\
+  match strip_bom source io_read 16 (mkSrc cs true TEof) with
+  | Ok (inr b, s') => drain_rd _ (edi_bytes_rd 16 400) 400 3 (brr_init, (brr_init, (b, s')))
+                      = Ok ([x41; x2a; x42; x7e], IoEOF)
+  | _ => False
+  end.
+Proof. vm_compute. repeat split; reflexivity. Qed.
 
 (* Non-vacuity: BOM + "ab\r\n" + a 9-byte line (longer than the 8-byte buffer) + "x", cut inside
    the BOM, inside CR LF and with empty chunks, EOF with the last byte -- against one chunk. *)
